@@ -3,9 +3,10 @@
    MaxPayloadLength table.  Definitions only.
 
    Fully modelled payloads: version, verack, getaddr, addr, getblocks, getheaders, headers, inv,
-   getdata, notfound, ping, pong, reject, sendheaders, feefilter, mempool, protoconf and authch
+   getdata, notfound, ping, pong, reject, sendheaders, feefilter, mempool, filteradd, filterclear,
+   filterload, protoconf and authch
    (both decode to an untouched MsgProtoconf: the payload is deliberately ignored).
-   The other commands of the table (block, tx, merkleblock, the filter and cf families) are carried through
+   The other commands of the table (block, tx, merkleblock and the cf family) are carried through
    the frame checks with their MaxPayloadLength; their payload decoders are outside the
    model (MOpaque). *)
 From Coq Require Import NArith ZArith List Bool.
@@ -90,6 +91,9 @@ Definition MaxBlockHeadersPerMsg : N := 2000.
 Definition MaxInvPerMsg : N := 50000.
 Definition MaxUserAgentLen : N := 256.
 Definition MaxVarIntPayload : N := 9.
+Definition MaxFilterAddDataSize : N := 520.
+Definition MaxFilterLoadFilterSize : N := 36000.
+Definition MaxFilterLoadHashFuncs : N := 50.
 
 (* maxMessagePayload(): uint32 arithmetic on the configured excessive block size *)
 Definition max_message_payload (ebs : N) : N := (ebs / 1000000 * 1024 * 1024 * 2) mod 2 ^ 32.
@@ -125,6 +129,9 @@ Inductive msg : Type :=
 | MFeeFilter (fee : Z)
 | MMemPool
 | MProtoconf (nf : N) (mrl : N)
+| MFilterAdd (data : bytes)
+| MFilterClear
+| MFilterLoad (filter : bytes) (hashfuncs tweak flags : N)
 | MOpaque (k : kind).
 
 (* Command() of the message *)
@@ -135,7 +142,9 @@ Definition kind_of (m : msg) : kind :=
   | MInv _ => KInv | MGetData _ => KGetData | MNotFound _ => KNotFound
   | MPing _ => KPing | MPong _ => KPong | MReject _ _ _ _ => KReject
   | MSendHeaders => KSendHeaders | MFeeFilter _ => KFeeFilter | MMemPool => KMemPool
-  | MProtoconf _ _ => KProtoconf | MOpaque k => k
+  | MProtoconf _ _ => KProtoconf
+  | MFilterAdd _ => KFilterAdd | MFilterClear => KFilterClear | MFilterLoad _ _ _ _ => KFilterLoad
+  | MOpaque k => k
   end.
 
 Fixpoint list_eqb (a b : bytes) : bool :=
@@ -169,7 +178,7 @@ Definition enc_reject (cmd : bytes) (code : N) (reason hash : bytes) : bytes :=
 Definition enc_payload (pver : N) (m : msg) : bytes :=
   match m with
   | MVersion v => enc_version pver v
-  | MVerAck | MGetAddr | MSendHeaders | MMemPool => []
+  | MVerAck | MGetAddr | MSendHeaders | MMemPool | MFilterClear => []
   | MAddr l => enc_counted (enc_netaddr pver true) l
   | MGetBlocks pv locs stop | MGetHeaders pv locs stop => enc_locator pv locs stop
   | MHeaders l => enc_counted enc_header_entry l
@@ -179,6 +188,8 @@ Definition enc_payload (pver : N) (m : msg) : bytes :=
   | MReject cmd code reason hash => enc_reject cmd code reason hash
   | MFeeFilter fee => le_enc 8 (of_signed 64 fee)
   | MProtoconf nf mrl => le_enc 8 nf ++ le_enc 4 mrl
+  | MFilterAdd d => enc_varstring d
+  | MFilterLoad f h t fl => enc_varstring f ++ le_enc 4 h ++ le_enc 4 t ++ le_enc 1 fl
   | MOpaque _ => []
   end.
 
@@ -202,6 +213,14 @@ Definition enc_check (pver : N) (m : msg) : option err :=
   | MFeeFilter _ => if pver <? FeeFilterVersion then Some EPverLow else None
   | MMemPool => if pver <? BIP0035Version then Some EPverLow else None
   | MProtoconf _ _ => if pver <? ProtoconfVersion then Some EPverLow else None
+  | MFilterAdd d =>
+    if pver <? BIP0037Version then Some EPverLow
+    else if MaxFilterAddDataSize <? len d then Some EDataTooLarge else None
+  | MFilterClear => if pver <? BIP0037Version then Some EPverLow else None
+  | MFilterLoad f h _ _ =>
+    if pver <? BIP0037Version then Some EPverLow
+    else if MaxFilterLoadFilterSize <? len f then Some EDataTooLarge
+    else if MaxFilterLoadHashFuncs <? h then Some ETooMany else None
   | MVerAck | MGetAddr | MPing _ | MOpaque _ => None
   end.
 
@@ -258,9 +277,16 @@ Definition dec_reject (mmp : N) (bs : bytes) : res (msg * bytes) :=
   then '(h, r') <- dec_hash r ;; Ok (MReject cmd code reason h, r')
   else Ok (MReject cmd code reason zero_hash, r).
 
+Definition dec_filterload (bs : bytes) : res (msg * bytes) :=
+  '(f, r) <- dec_varbytes MaxFilterLoadFilterSize bs ;;
+  '(h, r) <- read_le 4 r ;;
+  '(t, r) <- read_le 4 r ;;
+  '(fl, r) <- read_le 1 r ;;
+  if MaxFilterLoadHashFuncs <? h then Err ETooMany else Ok (MFilterLoad f h t fl, r).
+
 Definition is_opaque (k : kind) : bool :=
   match k with
-  | KBlock | KTx | KFilterAdd | KFilterClear | KFilterLoad | KMerkleBlock
+  | KBlock | KTx | KMerkleBlock
   | KGetCFilters | KGetCFHeaders | KGetCFCheckpt | KCFilter | KCFHeaders | KCFCheckpt => true
   | _ => false
   end.
@@ -286,6 +312,11 @@ Definition dec_payload (pver mmp : N) (k : kind) (bs : bytes) : res (msg * bytes
     else '(f, r) <- read_le 8 bs ;; Ok (MFeeFilter (to_signed 64 f), r)
   | KMemPool => if pver <? BIP0035Version then Err EPverLow else Ok (MMemPool, bs)
   | KProtoconf | KAuthch => if pver <? ProtoconfVersion then Err EPverLow else Ok (MProtoconf 0 0, bs)
+  | KFilterAdd =>
+    if pver <? BIP0037Version then Err EPverLow
+    else '(d, r) <- dec_varbytes MaxFilterAddDataSize bs ;; Ok (MFilterAdd d, r)
+  | KFilterClear => if pver <? BIP0037Version then Err EPverLow else Ok (MFilterClear, bs)
+  | KFilterLoad => if pver <? BIP0037Version then Err EPverLow else dec_filterload bs
   | _ => Ok (MOpaque k, [])
   end.
 
@@ -305,8 +336,8 @@ Definition max_payload (k : kind) (pver ebs : N) : N :=
   | KBlock | KTx | KMerkleBlock => ebs
   | KHeaders => MaxVarIntPayload + 81 * MaxBlockHeadersPerMsg
   | KPing | KPong => if BIP0031Version <? pver then 8 else 0
-  | KFilterAdd => 3 + 520
-  | KFilterLoad => 3 + 36000 + 9
+  | KFilterAdd => 3 + MaxFilterAddDataSize
+  | KFilterLoad => 3 + MaxFilterLoadFilterSize + 9
   | KReject => if pver <? RejectVersion then 0 else max_message_payload ebs
   | KFeeFilter => 8
   | KGetCFilters | KGetCFHeaders => 1 + 4 + 32
@@ -351,6 +382,8 @@ Definition alloc_payload (pver mmp : N) (k : kind) (bs : bytes) : N :=
             | Ok (_, r) => match read_le 1 r with Ok (_, r') => alloc_varstring mmp r' | Err _ => 0 end
             | Err _ => 0
             end)
+  | KFilterAdd => if pver <? BIP0037Version then 0 else alloc_varstring MaxFilterAddDataSize bs
+  | KFilterLoad => if pver <? BIP0037Version then 0 else alloc_varstring MaxFilterLoadFilterSize bs
   | _ => 0
   end.
 
@@ -382,5 +415,10 @@ Definition wf_msg (pver mmp : N) (m : msg) : bool :=
   | MFeeFilter fee => (FeeFilterVersion <=? pver) && sfits 64 fee
   | MMemPool => BIP0035Version <=? pver
   | MProtoconf _ _ => false      (* decode ignores the payload: no round trip is claimed *)
+  | MFilterAdd d => (BIP0037Version <=? pver) && (len d <=? MaxFilterAddDataSize)
+  | MFilterClear => BIP0037Version <=? pver
+  | MFilterLoad f h t fl =>
+    (BIP0037Version <=? pver) && (len f <=? MaxFilterLoadFilterSize) && (h <=? MaxFilterLoadHashFuncs) &&
+    fits 32 t && fits 8 fl
   | MOpaque _ => false
   end.
